@@ -312,7 +312,7 @@ Lemma swap_fields s ei din dout specified s' i o :
     vadd (a_acc_value s) (vsingle din (sr_growth r)) = Some accv /\
     a_ticks s' = sr_ticks r /\ a_acc_value s' = accv /\ p_tick (a_pool s') = sr_tick r /\
     a_positions s' = a_positions s /\ a_acc_pos s' = a_acc_pos s /\ a_acc_shares s' = a_acc_shares s /\
-    p_liq (a_pool s') = sr_liq r /\ i = sr_in r /\ o = sr_out r.
+    p_liq (a_pool s') = sr_liq r /\ i = sr_in r /\ o = sr_out r /\ (exists fc, dceil (sr_fees r) = Some fc).
 Proof.
   intros H. unfold swap in H.
   destruct (din =? dout); [discriminate|].
@@ -332,7 +332,7 @@ Proof.
   destruct F3 as (Q3&P3&T3&V3&S3&A3&N3).
   destruct (send_one_raw_spec _ _ _ _ _ _ E4) as ((Q4&P4&T4&V4&S4&A4&N4) & _ & _).
   exists r, accv. split; [reflexivity|]. split; [exact Ea|]. cbn.
-  rewrite T4, T3, T2, V4, V3, V2, P4, P3, P2, A4, A3, A2, S4, S3, S2. cbn. repeat split.
+  rewrite T4, T3, T2, V4, V3, V2, P4, P3, P2, A4, A3, A2, S4, S3, S2. cbn. repeat split. exists fc. exact Efc.
 Qed.
 
 Lemma vglobal_zero accv din : len4 accv -> 0 <= din < 4 -> vglobal accv din 0 = accv.
